@@ -229,12 +229,12 @@ def rand_lines(rng, n_tag, n_list, fns):
     lines = []
     for _ in range(n_tag):
         t = gen.rand_tag(rng, rng.randint(1, 12), leaves=("text", "text", "text", "meta"), all_names=fns, html_attrs=False,
-                         fan=rng.choice([2, 3, 4]))
+                         fan=rng.choice([2, 3, 4]), near=("miss",))
         i = rng.choice([0, 0, 1, 2, 5])
         e = rng.choice(["\n", "\n", "", "\r\n", " ", "\t", "\n\n", "\x0c", "<!>"])
         lines.append(f"render_tag {enode(t)} {i} {es(e)}")
     for _ in range(n_list):
-        ks = [gen.rand_node(rng, rng.randint(0, 5), leaves=("text", "text", "meta"), all_names=fns, html_attrs=False)
+        ks = [gen.rand_node(rng, rng.randint(0, 5), leaves=("text", "text", "meta"), all_names=fns, html_attrs=False, near=("miss",))
               for _ in range(rng.randint(0, 6))]
         i = rng.choice([0, 1, 3])
         e = rng.choice(["\n", "", "\r\n", " "])
@@ -265,7 +265,8 @@ def run(tier: str) -> int:
                "tokenizer and by html.parser; non-trivial = the guards of C01 hold (ordinary tree, whitespace-only eol), so the "
                "statement is actually evaluated; exhaustive cases are distinct by construction")
     fns = gen.fn_catalogue(ck.proof.translate_info)
-    names = sorted({nm for nm, _ in fns} | {nm for nm, _ in TAGS} | set(gen.CUSTOM) | set(gen.BLOCK + gen.INLINE + gen.VOID_INLINE + gen.VOID_BLOCK))
+    names = sorted({nm for nm, _ in fns} | {nm for nm, _ in TAGS} | set(gen.CUSTOM) | set(gen.NEAR_MISS)
+                   | set(gen.BLOCK + gen.INLINE + gen.VOID_INLINE + gen.VOID_BLOCK))
     bound, full_bound = (4, 3) if quick else (5, 4)
     nshards = 16 if quick else 64
     tasks = [("ex", (bound, full_bound, s, nshards, 2 if quick else 1), names) for s in range(nshards)]
@@ -273,7 +274,10 @@ def run(tier: str) -> int:
     fl, n_f = forest_lines(3 if quick else 4, 3)
     fnl = fn_lines(fns)
     rl = rand_lines(ck.rng, ck.budget(2500, 40000), ck.budget(600, 8000), fns)
-    rest = sp + fl + fnl + rl
+    # width / near-name stream (case variants of raw-text names are left out here: html.parser, the independent oracle,
+    # folds case and would read <Script> as raw text; C02/C04/C05/C06 render them)
+    bl = gen.boundary_lines(ck.rng, leaves=("text", "meta"), near=("miss",), html_attrs=False, cfgs=((0, "\n"), (2, "\r\n")))
+    rest = sp + fl + fnl + rl + bl
     size = 4000 if quick else 12000
     tasks += [("lines", rest[lo:lo + size], names) for lo in range(0, len(rest), size)]
     n_trees = sum(1 for t in gen.trees_upto(bound, LEAVES, TAGS) if t[0] == "tag")
@@ -288,6 +292,8 @@ def run(tier: str) -> int:
         {"scope": f"all top-level lists with <= {3 if quick else 4} nodes (add_ws x 2 settings up to 3 nodes, one cycling combination above)", "lists": n_f, "exhaustive": True},
         {"scope": "every tags/svg function (name, default flag): childless, 5 child patterns, with attributes, flag flipped, as child of block/inline parent",
          "functions": len(fns), "exhaustive": True},
+        {"scope": "width stream: fan-out / attribute count in " + str(gen.WIDTHS) + " x 5 child kinds x 3 parents; text lengths "
+                  + str(gen.ALIAS_LENGTHS) + "; near misses of void / no-escape names " + str(gen.NEAR_MISS), "cases": len(bl), "exhaustive": True},
     ]
     import multiprocessing as mp
     import ops  # noqa: F401  (import htmltools before forking)
